@@ -49,6 +49,19 @@ def fact2(a):
     return fact
 '''
 
+COMPAT_SRC = '''"""names that are not exported"""
+__all__ = %s
+class AppError:
+    """not an exception"""
+class Plain(Exception):
+    """an exception"""
+def ident(f):
+    return None
+def cached_property(f):
+    return None
+REG = 1
+'''
+
 # decorators that leave the decorated object as it is: stacked above or below a kind decorator they must not change the kind
 # the interpreter gives; the last four are not dotted names (subscript, call of a call, conditional expression, lambda)
 EXTRA_DECOS = ['ident', 'base.ident', "fact('a')", "base.fact('a')", "REG['keep']", "fact2('a')('b')", '(ident if True else fact)', '(lambda f: f)']
@@ -253,10 +266,14 @@ def st_module():
     def m(draw):
         g = Gen(draw)
         head = ['from functools import cached_property', 'from contextlib import nullcontext', 'from .base import AppError, Plain, ident, REG, fact, fact2', 'from . import base']
+        # a star import of a module whose __all__ is empty binds nothing: the names imported before it keep their meaning
+        compat = draw(st.sampled_from([None, None, '[]', '()']))
+        if compat:
+            head.append('from .compat import *')
         dl, _ = g.docstring('')
         body = g.stmts('pk.mod', '', 0, False)
         src = '\n'.join(dl + head + body) + '\n'
-        return {'src': src, 'scopes': g.scopes, 'interesting': g.interesting}
+        return {'src': src, 'scopes': g.scopes, 'interesting': g.interesting, 'compat': compat}
     return m()
 
 
@@ -298,6 +315,8 @@ def check_module(case: Dict[str, Any]) -> Tuple[List[Tuple[str, str]], Dict[str,
     from pydoctor import model
     K = model.DocumentableKind
     files = {'pk/__init__.py': '', 'pk/base.py': BASE_SRC, 'pk/mod.py': case['src']}
+    if case.get('compat'):
+        files['pk/compat.py'] = COMPAT_SRC % case['compat']
     info: Dict[str, Any] = {'objects': 0}
 
     def observe(mods: Dict[str, types.ModuleType]) -> Dict[str, Any]:
@@ -361,7 +380,7 @@ def check_module(case: Dict[str, Any]) -> Tuple[List[Tuple[str, str]], Dict[str,
                 res['__moddoc__'] = inspect.cleandoc(so.__doc__) if so.__doc__ is not None else None
         return res
     try:
-        rt = cpython.import_project(files, ['pk', 'pk.base', 'pk.mod'], observe)
+        rt = cpython.import_project(files, ['pk', 'pk.base'] + (['pk.compat'] if case.get('compat') else []) + ['pk.mod'], observe)
     except Exception as e:
         info['not_importable'] = '%s: %s' % (type(e).__name__, e)
         return [], info
